@@ -50,6 +50,7 @@ type loopRun struct {
 	headPos   int
 	variants  []Val
 	rounds    int
+	curBack   int // ordinal of the back edge being checked (in processing order)
 }
 
 func (vc *FuncVC) newFrame(fn *ssa.Function, fc *FuncContract, cf *ContractFile, prefix string, depth int) *Frame {
@@ -239,6 +240,7 @@ func (fr *Frame) run(st0 *State, reach0 Term) []retPoint {
 				runs[b] = lr
 			}
 			lr.snap = fr.takeSnapshot(len(rets))
+			lr.curBack = 0
 		}
 		var ins []inEdge
 		if b == fn.Blocks[0] {
@@ -301,6 +303,7 @@ func (fr *Frame) run(st0 *State, reach0 Term) []retPoint {
 				if hl == nil {
 					vc.unsupportedf("irreducible control flow in %s", fn)
 				}
+				hl.curBack++
 				if fr.backEdge(hl, oe.st, oe.reach) {
 					restart = index[h]
 					break
@@ -643,7 +646,7 @@ func (fr *Frame) backEdge(lr *loopRun, st *State, reach Term) bool {
 	if lr.spec != nil {
 		env := fr.specEnvAt(st, fmt.Sprintf("loop %d invariant", ord), lr.li.minPos)
 		for j, c := range lr.spec.Invariants {
-			fr.obligeParts(fmt.Sprintf("loop%d.inv%d.preserved", ord, j+1), "loop-inv-preserved", reach, env, c)
+			fr.obligeParts(fmt.Sprintf("loop%d.inv%d.preserved%s", ord, j+1, lr.backSuffix()), "loop-inv-preserved", reach, env, c)
 		}
 		if len(lr.spec.Decreases) > 0 {
 			enc := vc.enc
@@ -661,7 +664,7 @@ func (fr *Frame) backEdge(lr *loopRun, st *State, reach Term) bool {
 				alts = append(alts, mkAnd(append(append([]Term{}, eqs...), dec)...))
 				eqs = append(eqs, mkEq(nv.L[0], ov.L[0]))
 			}
-			fr.obligeNamed(fmt.Sprintf("loop%d.decreases", ord), "loop-decreases", reach, mkOr(alts...), "variant decreases and is bounded below", lr.spec.Decreases[0].Line)
+			fr.obligeNamed(fmt.Sprintf("loop%d.decreases%s", ord, lr.backSuffix()), "loop-decreases", reach, mkOr(alts...), "variant decreases and is bounded below", lr.spec.Decreases[0].Line)
 		}
 	}
 	return false
@@ -1056,8 +1059,14 @@ func (fr *Frame) binop(x *ssa.BinOp, st *State, reach Term) {
 			r = enc.mul(ta, tb)
 		}
 		if fr.wraps(x.Op, x.Type()) {
-			w, _, _ := intInfo(x.Type())
-			r = app(SInt, "mod", r, intLit(new(bigInt).Lsh(bigOne, uint(w))))
+			w, sg, _ := intInfo(x.Type())
+			m := intLit(new(bigInt).Lsh(bigOne, uint(w)))
+			if sg {
+				h := intLit(new(bigInt).Lsh(bigOne, uint(w-1)))
+				r = app(SInt, "-", app(SInt, "mod", app(SInt, "+", r, h), m), h)
+			} else {
+				r = app(SInt, "mod", r, m)
+			}
 			fr.vals[x] = scalar(x.Type(), vc.sc.Def("t", r))
 			return
 		}
@@ -1630,7 +1639,11 @@ func (fr *Frame) wraps(op token.Token, t types.Type) bool {
 	if fr.vc.enc.Mode != ModeInt || fr.fc == nil || fr.fc.Wraps == nil {
 		return false
 	}
-	if _, signed, ok := intInfo(t); !ok || signed {
+	_, signed, ok := intInfo(t)
+	if !ok {
+		return false
+	}
+	if signed && op == token.SHL {
 		return false
 	}
 	switch op {
@@ -1734,4 +1747,12 @@ func (fr *Frame) checkWriteObj(t types.Type, ref Term, reach Term) {
 		}
 		fr.checkWrite(vc.memKey(u.Elem(), vc.enc.Leaves(u.Elem())[0].Name), ref, reach)
 	}
+}
+
+
+func (lr *loopRun) backSuffix() string {
+	if lr.curBack <= 1 {
+		return ""
+	}
+	return fmt.Sprintf(".b%d", lr.curBack)
 }
